@@ -25,3 +25,19 @@ impl VFuture for SmolTimer {
     open spec fn ready_at(&self) -> nat { self.d as nat }
     #[verifier::external_body] fn await_(self, Tracked(w): Tracked<&mut World>) -> (r: ()) { unimplemented!() }
 }
+
+// smol::Task::cancel(): cancels the task and waits for it to stop; Some(output) only if the task had ALREADY completed, None otherwise
+// (a still-running actor is killed: nothing about its outcome can be concluded from a None)
+#[verifier::external_body] #[verifier::accept_recursive_types(A)] pub struct CancelFut<A> { p: core::marker::PhantomData<A> }
+impl<A> CancelFut<A> { pub uninterp spec fn task(&self) -> int; }
+impl<A> RtHandle<A> { #[verifier::external_body] pub fn cancel(self) -> (r: CancelFut<A>) ensures r.task() == self.task() { unimplemented!() } }
+impl<A: Actor> VFuture for CancelFut<A> {
+    type Output = Option<DynResult<A>>;
+    open spec fn pre(&self, w: &World) -> bool { true }
+    open spec fn done(&self, w0: &World, w1: &World, out: &Self::Output) -> bool {
+        others_ran(w0, w1) && (*out is Some && out->0 is Ok ==> task_outcome(self.task()) is Some && out->0->Ok_0.gid() == task_outcome(self.task())->0)
+    }
+    open spec fn dropped(&self, w0: &World, w1: &World) -> bool { same_world(w0, w1) }
+    uninterp spec fn ready_at(&self) -> nat;
+    #[verifier::external_body] fn await_(self, Tracked(w): Tracked<&mut World>) -> (r: Self::Output) { unimplemented!() }
+}
